@@ -30,7 +30,7 @@ BOUND = {
     "thorough": "L(5,3) x every rotation offset x 9 container variants; L(4,3) x every gap x every row",
 }
 # as-built additions to the bound (kept next to BOUND so that the evidence reports them)
-BOUND = {k: v + "; plus: " + 'repeat_count expressions mixing a reference with an operator / function; explicit row sequences: table-list group holding <=4 (quick) / <=5 (thorough) items from {select_one, select_multiple, text, nested group, nested repeat, empty group}, and 2-4 rows with a disabled cell from {absent, yes, no, true(), TRUE}' for k, v in BOUND.items()}
+BOUND = {k: v + "; plus: " + 'visible question types with a calculation and label / hint / trigger / none of them; repeat_count expressions mixing a reference with an operator / function; explicit row sequences: table-list group holding <=4 (quick) / <=5 (thorough) items from {select_one, select_multiple, text, nested group, nested repeat, empty group}, and 2-4 rows with a disabled cell from {absent, yes, no, true(), TRUE}' for k, v in BOUND.items()}
 
 CHOICES = [{"list_name": "c", "name": "x", "label": "X"}, {"list_name": "c", "name": "y", "label": "Y"},
            {"list_name": "c2", "name": "z", "label": "Z"}]
@@ -105,6 +105,14 @@ QROWS = [
     ({"type": "audit", "NONAME": True}, None, "meta"),
     ({"type": "note", "label": "L", "NONAME": True}, ("input", {}), "gen-note"),
     (_q("text", default="now()"), ("input", {}), True),
+    # visible types with a calculation: shown as soon as the row has a label or a hint, model-only otherwise
+    ({"type": "integer", "calculation": "2 + 2", "hint": "H"}, ("input", {}), True),
+    ({"type": "text", "calculation": "3 + 3"}, None, True),
+    ({"type": "text", "calculation": "4 + 4", "label": "L"}, ("input", {}), True),
+    ({"type": "decimal", "calculation": "5 + 5", "label": "L", "hint": "H"}, ("input", {}), True),
+    ({"type": "select_one c", "calculation": "'x'", "hint": "H"}, ("select1", {}), True),
+    ({"type": "text", "calculation": "6 + 6", "trigger": "${first}", "hint": "H"}, ("input", {}), True),
+    ({"type": "text", "calculation": "7 + 7", "trigger": "${first}"}, None, True),
 ]
 CONT = [
     ("g", {}), ("g", {"appearance": "field-list"}), ("r", {}), ("r", {"repeat_count": "1 + 1"}),
@@ -393,6 +401,8 @@ def ref_model(rows):
             if "choice_filter" in row or (top["table"] is not True and top["table"] != lst):
                 raise ExpectedReject("table-list selects must share one list and cannot be filtered")
             if top["table"] is True:
+                if lst not in {c["list_name"] for c in CHOICES}:
+                    raise ExpectedReject("the first select of a table-list group must use a list of the choices sheet")
                 top["table"] = lst
                 h = f"reserved_name_for_field_list_labels_{rownum}"
                 top["inst"].append((h, [], ""))
